@@ -2072,11 +2072,17 @@ def _c18_scan(db):
         if abs(diff) > 2.5:
             return "record %s: zone %s (UTC%+.2f) is %.2f h from mean solar time at longitude %.3f" % (
                 ident, r.timezone, std, diff, r.longitude)
-        noon = sun.noon(Observer(r.latitude, r.longitude), datetime.date(2021, 3, 20),
-                        datetime.timezone(datetime.timedelta(hours=std)))
-        mins = noon.hour * 60 + noon.minute
-        if not (9 * 60 + 10 <= mins <= 14 * 60 + 50):
-            return "record %s: solar noon at %s standard time" % (ident, noon.time())
+        days = range(0, 365, 5) if abs(r.longitude) > 170.0 else range(0, 365, 91)
+        for dd in days:
+            day = datetime.date(2021, 1, 1) + datetime.timedelta(days=dd)
+            try:
+                noon = sun.noon(Observer(r.latitude, r.longitude), day,
+                                datetime.timezone(datetime.timedelta(hours=std)))
+            except Exception as exc:  # noqa: BLE001
+                return "record %s: solar noon cannot be computed for %s (%r)" % (ident, day, exc)
+            mins = noon.hour * 60 + noon.minute
+            if not (9 * 60 + 10 <= mins <= 14 * 60 + 50):
+                return "record %s: solar noon on %s at %s standard time" % (ident, day, noon.time())
         if (r.name, r.region) in seen:
             return "(name, region) pair %s occurs twice" % (ident,)
         seen[(r.name, r.region)] = True
